@@ -265,6 +265,9 @@ def run(pid, tier, seed, a, t0):
         tiers = ledger.setdefault("tiers", {})
         for i in items:
             if i.label == "proved" and i.status == "ok" and i.obligation is not None:
+                if "[cvc5/qf]" in (i.detail or ""):
+                    tiers[i.iid] = "cq"
+                    continue
                 mc = re.search(r"\[cvc5/tier(\d)\]", i.detail or "")
                 if mc:
                     tiers[i.iid] = "c" + mc.group(1)
